@@ -73,6 +73,9 @@ func registerAll() {
 
 	reg("L2", "decoder prefix = in-memory prefix: for every slab literal built by a decoder, the constant part of its size, evaluated per state (root / non-root / inlined), equals what getPrefixSize() returns for that state", ruleL2)
 
+	reg("I2", "iterator cursor advance: every exit of a Next/next method that hands out an element is preceded on all paths by a write of the iterator's cursor state (own field, nested iterator, or delegation to its own Next)", ruleI2)
+	reg("I3", "range validation: the range iterator constructors reject start > end and bounds beyond the count", ruleI3)
+
 	const tCFG = "CFG path rules on go/ssa (must-precede, edge dominance, loop-iteration coverage, error-edge reachability)"
 	propTable["C01"] = &PropSpec{
 		ID:    "C01",
@@ -174,8 +177,8 @@ func registerAll() {
 	}
 	propTable["C13"] = &PropSpec{
 		ID:    "C13",
-		Rules: []string{"X4", "X1", "R5"},
-		Explanation: "Next/NextKey/NextValue of each iterator type write the same cursor fields (no flavour can skip or repeat relative to its siblings); every slab/element kind is handled by the iterator type switches (no silent skip); mutable iteration hands out children with the parent callback installed, read-only iterators arm the mutation error on every element.",
+		Rules: []string{"X4", "I2", "I3", "X1", "R5", "R6"},
+		Explanation: "every exit of an iterator Next method that hands out an element is preceded on all paths by a cursor advance; range constructors reject start > end and bounds beyond the count before building an iterator and leave no trace; Next/NextKey/NextValue of each iterator type write the same cursor fields (no flavour can skip or repeat relative to its siblings); every slab/element kind is handled by the iterator type switches (no silent skip); mutable iteration hands out children with the parent callback installed, read-only iterators arm the mutation error on every element.",
 		NotDecided: "exactly-once, canonical order and the loaded-subset subsequence property (value-level).",
 		Technique:  "may-effect comparison of sibling methods, type-switch exhaustiveness, must-pass-through path rule",
 	}
